@@ -26,7 +26,7 @@ import (
 
 func init() {
 	register("C01", &Prop{Gen: genC01, Run: runC01})
-	register("C08", &Prop{Gen: genC08, Run: runC01})
+	register("C08", &Prop{Gen: genC08, Run: runC08})
 }
 
 type bop struct {
@@ -45,6 +45,16 @@ func parseBops(c *Case, i int, n int) []bop {
 		}
 	}
 	return ops
+}
+
+// C08 cases are engine programs (runC01) or, with header level=wal, programs over the log's own
+// API (runC09, which checks that every number the log assigns exceeds all numbers accepted before)
+func runC08(c *Case, out func(string)) {
+	if hdrVal(c.Hdr, "level", "engine") == "wal" {
+		runC09(c, out)
+		return
+	}
+	runC01(c, out)
 }
 
 func runC01(c *Case, out func(string)) {
@@ -529,6 +539,10 @@ func genC08(w *bufio.Writer, seed int64, n int, tier string) {
 	for ci := 0; ci < n; ci++ {
 		if ci%5 == 4 {
 			genSched(w, r, fmt.Sprintf("c08-%d-%d", seed, ci))
+			continue
+		}
+		if ci%10 == 7 {
+			genC09Case(w, r, fmt.Sprintf("case c08-%d-%d level=wal", seed, ci))
 			continue
 		}
 		genProgram(w, r, fmt.Sprintf("c08-%d-%d", seed, ci), 5+r.Intn(50), 5)
